@@ -191,3 +191,29 @@ Arguments attempt_cls {T} _.
 Definition fiber (p : policy) (idem : bool) (cl0 : consistency) (plan : list N)
            (outs : list outcome) : list (event N) * fiber_result N :=
   fiber_run decide idem (new_session p) cl0 plan outs.
+
+(* The property as a predicate on an observed trace of the (real) loop, used by the driver
+   when the implementation's trace differs from the model's:
+   - something follows a failed attempt of a non-idempotent request only after a safe error;
+   - under Default nothing follows a failed attempt at a serial consistency;
+   - nothing follows a successful attempt;
+   - the number of events is within plan length + the policy's same-target retries. *)
+Fixpoint resend_ok (p : policy) (idem : bool) (tr : list (event N)) : bool :=
+  match tr with
+  | [] => true
+  | ev :: rest =>
+      match rest with
+      | [] => true
+      | _ :: _ =>
+          match ev with
+          | EvConnFail _ => true
+          | EvAttempt _ _ AOk => false
+          | EvAttempt _ c (AErr e _) =>
+              (idem || safe_errorb e)
+              && negb (match p with PDefault => is_serial c | _ => false end)
+          end && resend_ok p idem rest
+      end
+  end.
+
+Definition prop_trace_ok (p : policy) (idem : bool) (nplan : nat) (tr : list (event N)) : bool :=
+  resend_ok p idem tr && (List.length tr <=? nplan + same_target_budget p)%nat.
